@@ -86,6 +86,9 @@ type Case struct {
 	Oracle   string   `json:"oracle"` // "" = the property's statement holds on this run
 	// inside the region of a known finding: the outcome the finding records for this input, and a
 	// message when the run shows another one (always a violation)
+	// non-empty when decoding the same stored (context, rollback_info) gives another result under another
+	// READER configuration (always a violation: the context alone must pick decoder and decompressor)
+	ReaderDep       string `json:"reader_dep,omitempty"`
 	Expect          string `json:"expect,omitempty"`
 	RegionViolation string `json:"region_violation,omitempty"`
 	What            string `json:"what,omitempty"`
@@ -777,6 +780,42 @@ func lz4Expect(ser string, exp *undo.BranchUndoLog) string {
 	return out
 }
 
+// reader configurations that differ from any writer's: compression switched, other type, other serializer, other threshold
+var readerCfgs = []Cfg{
+	{Ser: "json", Enable: false, CType: "None", Threshold: "0"},
+	{Ser: "protobuf", Enable: true, CType: "Gzip", Threshold: "1"},
+	{Ser: "", Enable: true, CType: "Lz4", Threshold: ""},
+	{Ser: "json", Enable: true, CType: "Zstd", Threshold: "1m"},
+}
+
+// decodeAcross decodes under the configuration in force and then under every reader configuration:
+// class and decoded log must be the same (the rollback may run after a restart or on another instance)
+func decodeAcross(ctx, info []byte) (cls, det string, l *undo.BranchUndoLog, dep string) {
+	saved := undo.UndoConfig
+	defer func() { undo.UndoConfig = saved }()
+	cls, det, l = decodeReal(ctx, info)
+	ref := ""
+	if cls == hutil.OutOK {
+		b, _ := json.Marshal(canonLog(l))
+		ref = string(b)
+	}
+	for _, rc := range readerCfgs {
+		setCfg(rc)
+		c2, d2, l2 := decodeReal(ctx, info)
+		got := ""
+		if c2 == hutil.OutOK {
+			b, _ := json.Marshal(canonLog(l2))
+			got = string(b)
+		}
+		if c2 != cls || got != ref {
+			dep = fmt.Sprintf("decoding the stored undo log depends on the READER's configuration: %s under the writer's configuration, %s (%s) under reader configuration %+v",
+				cls, c2, trim(d2), rc)
+			break
+		}
+	}
+	return
+}
+
 func decodeReal(ctx, info []byte) (cls, det string, l *undo.BranchUndoLog) {
 	cls, det = hutil.Guard(30*time.Second, func() error {
 		var err error
@@ -904,8 +943,8 @@ func (o *Out) runValidHook(cfg Cfg, xid string, branch uint64, before, after []*
 		} else {
 			c.InModel = false
 		}
-		dcls, ddet, dl := decodeReal(ctx, info)
-		c.Dec, c.DecErr = dcls, trim(ddet)
+		dcls, ddet, dl, dep := decodeAcross(ctx, info)
+		c.Dec, c.DecErr, c.ReaderDep = dcls, trim(ddet), dep
 		if dcls == hutil.OutOK {
 			c.DecLog = canonLog(dl)
 			c.Oracle = logEq(exp, dl)
@@ -1032,8 +1071,8 @@ func (o *Out) runStored(stream string, inmodel bool, feat []string, ctx, info []
 	if inmodel {
 		c.Trees = decompressAll(info)
 	}
-	cls, det, l := decodeReal(ctx, info)
-	c.Dec, c.DecErr = cls, trim(det)
+	cls, det, l, dep := decodeAcross(ctx, info)
+	c.Dec, c.DecErr, c.ReaderDep = cls, trim(det), dep
 	if cls == hutil.OutOK {
 		c.DecLog = canonLog(l)
 	}
